@@ -1,7 +1,7 @@
 /-
   C11 — "a command that answers an error has changed nothing", on the executable storage models that are tied line by
   line to the real leader-side validation + apply path (protocols datacorekv / datacoreset / datacorelist / datacorezset;
-  datacore / datacorettl for HINCRBY, the one hash write with a data-dependent error):
+  datacore / datacorettl for HINCRBY, the one hash write with a data-dependent error; datacorebit for the bitmap commands):
   for every store, key, argument vector and log time, if the reply is an error then the store after the command IS the
   store before it. (On the real code the same statement is judged by the `error-changed-state` oracle of protocol `data`,
   which also commits the shared write batch after the failed command.)
@@ -13,6 +13,7 @@ import ZanVerif.Data.ZSetCmd
 import ZanVerif.Data.HashExec
 import ZanVerif.Data.HashTTLIncrErr
 import ZanVerif.Gen.HIncrShape
+import ZanVerif.Data.BitExec
 
 namespace Z.Props.C11
 
@@ -203,5 +204,109 @@ example :
     let m := (Z.HashTTLExec.hset [] 7000000000 false [116] [104] [102] (Z.KVExec.fmtInt 9223372036854775808)).1
     (Z.HashTTLExec.hincrbyCmd m 7000000001 [116] [104] [102] [49]).2 = .err .numrange ∧
     (Z.HashTTLExec.hincrbyCmd m 7000000001 [116] [104] [102] [49]).1 = m := by decide
+
+/-! ### bitmap (both layouts): an error answer (value not 0 / 1, offset outside `[0, MaxBitOffsetV2]`, undecodable meta,
+    overflowing expiry, PERSIST under local_deletion) leaves the store as it was. Model domain: table name and key part
+    non-empty (with an EMPTY key part the real `BitSetV2` converts and deletes a string of that name and THEN answers
+    `invalid key size`: known finding C11-setbit-empty-keypart, outside the model). A Go panic is not an error answer:
+    `C11_setbit_panic_witness`. -/
+
+open Z.BitExec in
+theorem C11_setbit_error_no_effect (pol : Pol) (m : List KV) (ts : Int) (table rk : Bytes) (offset on : Int) (e : String)
+    (h : (setbit pol m ts table rk offset on).2 = .err e) : (setbit pol m ts table rk offset on).1 = m := by
+  unfold setbit at h ⊢
+  split
+  · rfl
+  · split
+    · rfl
+    · rename_i h1 h2
+      rw [if_neg h1, if_neg h2] at h
+      cases hb : bmeta pol m ts table rk with
+      | err c => rfl
+      | mk hd ex size0 ok =>
+        rw [hb] at h
+        simp only at h ⊢
+        cases hc : (if ok = true then Conv.done m size0 else convert m table rk size0) with
+        | panic q => rfl
+        | done m1 size1 => rw [hc] at h; simp only at h; cases h
+
+open Z.BitExec in
+theorem C11_bitclear_error_no_effect (pol : Pol) (m : List KV) (ts : Int) (table rk : Bytes) (e : String)
+    (h : (bitclear pol m ts table rk).2 = .err e) : (bitclear pol m ts table rk).1 = m := by
+  unfold bitclear at h ⊢
+  cases hmv : mview pol m ts table rk with
+  | bad c => rfl
+  | mv hd ex =>
+    rw [hmv] at h
+    simp only at h ⊢
+    generalize clearSize hd = bm at h ⊢
+    by_cases hc : (ex || bm == 0) = true
+    · rw [if_pos hc]
+    · rw [if_neg hc] at h
+      cases pol <;> cases h
+
+open Z.BitExec in
+theorem C11_bexpire_error_no_effect (m : List KV) (ts : Int) (table rk : Bytes) (dur : Int) (e : String)
+    (h : (bexpire m ts table rk dur).2 = .err e) : (bexpire m ts table rk dur).1 = m := by
+  unfold bexpire bexpireAt at h ⊢
+  cases hmv : mview .compact m ts table rk with
+  | bad c => rfl
+  | mv hd ex =>
+    rw [hmv] at h
+    simp only at h ⊢
+    split
+    · rfl
+    · rename_i hne
+      rw [if_neg hne] at h
+      split
+      · rfl
+      · rfl
+      · rename_i raw' hr
+        rw [hr] at h; cases h
+
+open Z.BitExec in
+theorem C11_bpersist_error_no_effect (pol : Pol) (m : List KV) (ts : Int) (table rk : Bytes) (e : String)
+    (h : (bpersist pol m ts table rk).2 = .err e) : (bpersist pol m ts table rk).1 = m := by
+  cases pol with
+  | compact =>
+    have := C11_bexpire_error_no_effect m ts table rk (0 - Int.tdiv ts 1000000000) e
+    unfold bpersist at h ⊢
+    unfold bexpire at this
+    rw [show 0 - Int.tdiv ts 1000000000 + Int.tdiv ts 1000000000 = 0 by omega] at this
+    exact this h
+  | «local» =>
+    unfold bpersist at h ⊢
+    simp only at h ⊢
+    split
+    · rfl
+    · split <;> rfl
+
+section BitExample
+open Z.BitExec Z.Header
+def bT : Bytes := [116]
+def bK : Bytes := [98]
+def bTs : Int := 1600000000000000000
+
+set_option maxRecDepth 100000 in
+example : (setbit .compact [] bTs bT bK 5 2) = ([], .err "bitvalue") ∧ (setbit .local [] bTs bT bK 4294967295 1) = ([], .err "bitoffset") ∧
+    (setbit .compact [] bTs bT bK (-1) 1) = ([], .err "bitoffset") ∧ (setbit .compact [] bTs bT bK 4294967294 1).2 = .ok 0 := by decide
+
+set_option maxRecDepth 100000 in
+example : (bexpire (setbit .compact [] bTs bT bK 5 1).1 (bTs + 1) bT bK 4294967294).2 = .err "expoverflow" ∧
+    (bpersist .local (setbit .local [] bTs bT bK 5 1).1 (bTs + 1) bT bK).2 = .err "ttlunsupported" := by decide
+
+set_option maxRecDepth 100000 in
+/-- **witness (Go panic in the APPLY path, on every replica)**: `SETBIT b 5 1 @t; BEXPIRE b 1 @t; SET b "a" @t+2s; SETBIT b 6 1 @t+3s`
+    — the bitmap meta is expired with size 1, a string of the same name exists: the legacy conversion inside `BitSetV2`
+    adds the string's length to the size the EXPIRED meta still carries and hits its own `panic("bitmap size mismatch")`.
+    Not an error answer: the apply loop of the node dies. -/
+theorem C11_setbit_panic_witness :
+    let s1 := (setbit .compact [] bTs bT bK 5 1).1
+    let s2 := (bexpire s1 bTs bT bK 1).1
+    let s3 := Z.Ref.put s2 (strK bT bK) (encode ⟨0, 0, some [97]⟩ ++ Z.Codec.be64 (Z.Codec.toU64 (bTs + 2000000000)))
+    (bexpire s1 bTs bT bK 1).2 = .ok 1 ∧
+    setbit .compact s3 (bTs + 3000000000) bT bK 6 1 = (s3, .panic .sizeMismatch) := by decide
+end BitExample
+
 
 end Z.Props.C11
